@@ -1525,6 +1525,11 @@ func (v *Verifier) assumeGlobals(st *State, alloc0 *Term) {
 			continue
 		}
 		g := c.Const("glob_"+sanitize(pkg.Name()+"."+obj.Name()), v.tm.SortOf(obj.Type()))
+		if len(toks) == 1 && toks[0] == "nonnil" {
+			// package-level value initialised once to a non-nil pointer / interface (e.g. a registered sentinel error)
+			st.assume(c, c.Not(c.Eq(g, c.Int(0))))
+			continue
+		}
 		if len(toks) == 2 && toks[0] == "deref" {
 			el := pointee(obj.Type())
 			if el == nil {
